@@ -93,6 +93,12 @@ pub fn divide_segment_contract_body<F: AnyF, S: Src>(s: &mut S) {
     vcover!(i.x == q.x && i.y > q.y, "vertical-remainder-swap");
     vcover!(i.x > p.x && i.x < q.x, "interior");
 
+    divide_and_check(l, r, i, subj, id, bump, bumped);
+}
+
+/// the call of the real `divide_segment` and the postcondition of U-I3, shared by the general contract harness and the
+/// concrete-coordinate instances
+fn divide_and_check<F: AnyF>(l: Rc<SweepEvent<F>>, r: Rc<SweepEvent<F>>, i: Coord<F>, subj: bool, id: u32, bump: Coord<F>, bumped: bool) {
     let mut queue: BinaryHeap<Rc<SweepEvent<F>>> = BinaryHeap::new();
     let n0 = pushed_count();
     divide_segment(&l, i, &mut queue);
@@ -117,6 +123,21 @@ pub fn divide_segment_contract_body<F: AnyF, S: Src>(s: &mut S) {
     // inherited attributes
     assert!(nr.is_subject == subj && nl.is_subject == subj && nr.contour_id == id && nl.contour_id == id, "C13: operand and contour id inherited");
     std::mem::forget((pushed, nr, nl, l, r));
+}
+
+/// U-I3 on concrete coordinates with symbolic operand flag and contour id (cheap enough for the quick tier; the general
+/// harness above is the thorough one).  which = 0: interior division of (0,0)-(4,2) at (2,1); which = 1: division at
+/// (4,3), straight above the right end, so that the remainder is vertical and re-oriented (corner case 2).
+pub fn divide_segment_instance_body<S: Src>(s: &mut S, which: u8) {
+    let (p, q): (Coord<f64>, Coord<f64>) = (Coord { x: 0.0, y: 0.0 }, Coord { x: 4.0, y: 2.0 });
+    let i: Coord<f64> = if which == 0 { Coord { x: 2.0, y: 1.0 } } else { Coord { x: 4.0, y: 3.0 } };
+    let subj = s.bool();
+    let id = s.u32();
+    let bump = Coord { x: i.x.nextafter(true), y: i.y };
+    register_points(&[w(p), w(q), w(i)]);
+    let (l, r) = seg(id, p, q, subj);
+    vcover!(!subj, "clipping-operand");
+    divide_and_check(l, r, i, subj, id, bump, false);
 }
 
 /// Known finding N2, concrete instance (C16: "one and the same point"): dividing (0,5)-(5,0) at (0,3) -- a point of its
@@ -219,6 +240,22 @@ mod proofs {
     #[kani::unwind(8)]
     fn divide_segment_contract_f32() {
         divide_segment_contract_body::<f32, _>(&mut KaniSrc);
+    }
+
+    #[kani::proof]
+    #[kani::stub(robust::orient2d, orient2d_contract)]
+    #[kani::stub(std::collections::BinaryHeap::push, heap_push_recorder)]
+    #[kani::unwind(8)]
+    fn divide_segment_instance_interior() {
+        divide_segment_instance_body(&mut KaniSrc, 0);
+    }
+
+    #[kani::proof]
+    #[kani::stub(robust::orient2d, orient2d_contract)]
+    #[kani::stub(std::collections::BinaryHeap::push, heap_push_recorder)]
+    #[kani::unwind(8)]
+    fn divide_segment_instance_swap() {
+        divide_segment_instance_body(&mut KaniSrc, 1);
     }
 
     #[kani::proof]
